@@ -5,8 +5,185 @@ from core import (universe, mk_desc, id_of_name, name_of, show_sig, show_call, t
                   parse_cex, b, shape_of, describe_sig, build_sig, PS, random_sig)
 from algebra import (Mask, run_cases, ask, proj_shape, proj_full, check_binding_model, case_from_data)
 
+import functools
+import warnings
+
 LEVEL = 'proof'
 FOREIGN = 'z'
+
+
+# ---------------------------------------------------------------- real signatures, unusual values
+# Defaults and annotations that are perfectly legal but outside the model's value domain:
+# unhashable objects, objects that are equal without being identical, objects whose == is not a bool.
+VALUE_POOL = ['[]', '{}', '[1, 2]', "{'k': 1}", 'set()', '[int]', "{'help': 'x'}", 'NoEq()', 'Odd()',
+              '0', 'None', "'s'", '2.0', '()']
+REAL_PRELUDE = (
+    'class NoEq(object):\n    __hash__ = None\n    def __eq__(self, o):\n        return self is o\n'
+    'class Odd(object):\n    def __eq__(self, o):\n        return NotImplemented\n    __hash__ = None\n')
+
+
+def unusual_source(rng, ps):
+    """module source defining f with the parameter list ps; every default is drawn from VALUE_POOL and
+    some parameters get an annotation from it (mostly the unhashable ones)"""
+    parts, prev = [], None
+    for nm, k, de, an, ua in ps:
+        if prev == 'PO' and k != 'PO':
+            parts.append('/')
+        if k == 'KO' and prev not in ('VP', 'KO'):
+            parts.append('*')
+        t = {'VP': '*', 'VK': '**'}.get(k, '') + name_of(nm)
+        ann = rng.random() < 0.35
+        if ann:
+            t += ': ' + rng.choice(VALUE_POOL[:9] if rng.random() < 0.8 else VALUE_POOL)
+        if de is not None:
+            t += (' = ' if ann else '=') + rng.choice(VALUE_POOL[:9] if rng.random() < 0.7 else VALUE_POOL)
+        parts.append(t)
+        prev = k
+    if prev == 'PO':
+        parts.append('/')
+    return REAL_PRELUDE + 'def f(%s):\n    return None\n' % ', '.join(parts)
+
+
+def real_f(src):
+    ns = {'__name__': 'c03_real'}
+    exec(compile(src, '<c03-real>', 'exec', dont_inherit=True), ns)
+    return ns['f']
+
+
+def shape_desc(ps):
+    return mk_desc([(nm, k, (1 if de is not None else None), None, ('E',)) for nm, k, de, an, ua in ps], 100)
+
+
+class RealMask(Mask):
+    """mask on the signature retrieved from a REAL function (source text src) whose shape is d; the
+    model is run on the shape, the answers are compared and decided on shapes (names, kinds, has-default)"""
+    def __init__(self, src, d, n, names, flags=(False,) * 4):
+        Mask.__init__(self, d, n, names, flags)
+        self.src = src
+
+    def thunk(self):
+        ha, hk, hva, hvk = self.flags
+
+        def th():
+            return PS.mask(PS.signature(real_f(self.src)), self.n, *[name_of(k) for k in self.names],
+                           hide_args=ha, hide_kwargs=hk, hide_varargs=hva, hide_varkwargs=hvk)
+        return th
+
+    def show(self):
+        line = [ln for ln in self.src.split('\n') if ln.startswith('def f(')][0]
+        return Mask.show(self).replace(show_sig(self.d), 'signature(`%s`)' % line[:-1], 1)
+
+    def data(self):
+        return dict(Mask.data(self), src=self.src)
+
+
+def real_outcome(th):
+    """-> ('ok', (shape, raw parameter reprs, sources as names)) | ('err', exception class name)"""
+    try:
+        with warnings.catch_warnings():
+            warnings.simplefilter('ignore')
+            r = th()
+    except ValueError:
+        return ('err', 'ValueError')
+    except Exception as e:  # noqa: BLE001
+        return ('err', type(e).__name__ + ': ' + str(e))
+    return ('ok', (tuple((q.name, int(q.kind), repr(q.default), repr(q.annotation)) for q in r.parameters.values()),
+                   {k: len(v) for k, v in r.sources.items()}))
+
+
+def real_law(src, n, m):
+    f = real_f(src)
+    s = PS.signature(f)
+    a = real_outcome(lambda: PS.mask(PS.mask(s, n), m))
+    bb = real_outcome(lambda: PS.mask(s, n + m))
+    if a != bb:
+        return 'mask(mask(s, %d), %d) = %s but mask(s, %d) = %s' % (n, m, a, n + m, bb)
+    return None
+
+
+def _binds(sig, npos, kws):
+    try:
+        sig.bind(*([0] * npos), **dict.fromkeys(kws, 0))
+    except TypeError:
+        return False
+    return True
+
+
+def real_partial(src, n, kws):
+    """signatures.signature(functools.partial(f, <n positionals>, **kws)): a signature or ValueError
+    (when f cannot be passed those arguments), and every call shape the signature accepts really
+    executes on the partial object (no argument-binding TypeError)."""
+    f = real_f(src)
+    pobj = functools.partial(f, *([0] * n), **dict.fromkeys(kws, 0))
+    try:
+        with warnings.catch_warnings():
+            warnings.simplefilter('ignore')
+            sig = PS.signature(pobj)
+    except ValueError:
+        try:
+            import inspect
+            inspect.signature(pobj)
+        except ValueError:
+            return None
+        return 'signature(partial) raised ValueError although inspect.signature gives %s' % inspect.signature(pobj)
+    except Exception as e:  # noqa: BLE001
+        return 'signature(partial) raised %s: %s (a signature or ValueError is due)' % (type(e).__name__, e)
+    names = [q.name for q in sig.parameters.values() if q.kind in (q.POSITIONAL_OR_KEYWORD, q.KEYWORD_ONLY)]
+    for npos in range(0, 4):
+        for r in range(0, 3):
+            for ks in itertools.combinations(names, r):
+                if _binds(sig, npos, ks):
+                    try:
+                        pobj(*([0] * npos), **dict.fromkeys(ks, 0))
+                    except TypeError as e:
+                        return ('signature(partial) = %s accepts %d positionals + %s but the call fails: %s'
+                                % (sig, npos, list(ks), e))
+    return None
+
+
+def real_checks(ctx, rep, sigs):
+    rng = ctx.rng('real-unusual')
+    fz = id_of_name(FOREIGN)
+    cases, nlaw, npart = [], 0, 0
+    pool = [ps for ps in sigs if any(p[2] is not None for p in ps) or rng.random() < 0.3]
+    for _ in range(90 if ctx.quick else 900):
+        ps = rng.choice(pool)
+        src = unusual_source(rng, ps)
+        d = shape_desc(ps)
+        names = [p[0] for p in ps if p[1] != 'PO'] + [fz]
+        npos = len([p for p in ps if p[1] in ('PO', 'PK')])
+        for n in range(0, npos + 2):
+            for r in range(0, 3):
+                perms = list(itertools.permutations(names, r))
+                for ns in (perms if len(perms) <= 6 else rng.sample(perms, 6)):
+                    flagsets = [(False,) * 4] + [tuple(rng.random() < 0.4 for _ in range(4)) for _ in range(2 if r < 2 else 0)]
+                    for fl in flagsets:
+                        cases.append(RealMask(src, d, n, ns, fl))
+            for m_ in range(0, 3):
+                nlaw += 1
+                what = real_law(src, n, m_)
+                if what:
+                    rep.violation('C03:law', '%s for s = signature(`%s`)' % (what, [ln for ln in src.split('\n') if ln.startswith('def f(')][0]),
+                                  {'kind': 'real-law', 'src': src, 'n': n, 'm': m_})
+            kwn = [name_of(p[0]) for p in ps if p[1] in ('PK', 'KO')]
+            for ks in [()] + ([(rng.choice(kwn),)] if kwn else []):
+                npart += 1
+                what = real_partial(src, n, ks)
+                if what:
+                    rep.violation('C03:partial-real', '%s; f is `%s`, partial(f, <%d positionals>, %s)'
+                                  % (what, [ln for ln in src.split('\n') if ln.startswith('def f(')][0], n, list(ks)),
+                                  {'kind': 'real-partial', 'src': src, 'n': n, 'kws': list(ks)})
+    tr = run_cases(cases)
+    for c, m, i in tr:
+        if proj_shape(m) != proj_shape(i) and not (i[0] == 'err' and i[1] != 'ValueError'):
+            rep.corr_break('mask shape/error-class on a real signature', c.show(), str(proj_shape(m)), str(proj_shape(i)))
+        rep.distinct.add(('real', c.src, c.request()))
+    for c, key, what in decide(tr):
+        rep.violation(key, what, dict(c.data(), kind='real-decide'))
+    rep.coverage['real_unusual_value_mask_cases'] = len(tr)
+    rep.coverage['real_unusual_value_law_instances'] = nlaw
+    rep.coverage['real_unusual_value_partial_cases'] = npart
+    rep.evaluations += len(tr) + nlaw + npart
 
 
 def po_names(d):
@@ -194,6 +371,7 @@ def run(ctx, rep):
                                   {'kind': 'law2', 'sig': d, 'n': n, 'm': m_})
     rep.coverage['law_instances'] = nl
     rep.evaluations += nl
+    real_checks(ctx, rep, sigs)
     rep.exhaustive = False
     rep.assumptions = [
         'names naming a positional-only parameter are excluded from the decision (version-dependent semantics), not from the correspondence',
@@ -210,6 +388,15 @@ def replay(ctx, data):
         tr = run_cases([c])
         res = decide(tr)
         return res[0][2] if res else None
+    if kind == 'real-decide':
+        from algebra import _fix_desc
+        c = RealMask(r['src'], _fix_desc(r['sig']), r['n'], r['names'], r['flags'])
+        res = decide(run_cases([c]))
+        return res[0][2] if res else None
+    if kind == 'real-law':
+        return real_law(r['src'], r['n'], r['m'])
+    if kind == 'real-partial':
+        return real_partial(r['src'], r['n'], tuple(r['kws']))
     if kind == 'order':
         c1 = case_from_data(r)
         c2 = case_from_data(r['other'])
